@@ -12,7 +12,15 @@ import (
 // Rng is splitmix64: every random choice of a run derives from one seed.
 type Rng struct{ s uint64 }
 
-func NewRng(seed uint64) *Rng { return &Rng{s: seed*0x9E3779B97F4A7C15 + 0x1234567} }
+func NewRng(seed uint64) *Rng {
+	// the seed is hashed: the generator's state advances by a constant, so consecutive seeds must not
+	// map to consecutive states (they would produce the same stream shifted by one draw)
+	z := seed + 0x1234567
+	z = (z ^ (z >> 30)) * 0xBF58476D1CE4E5B9
+	z = (z ^ (z >> 27)) * 0x94D049BB133111EB
+	z = z ^ (z >> 31)
+	return &Rng{s: z*0xD6E8FEB86659FD93 + 0x9E3779B97F4A7C15}
+}
 func (r *Rng) U64() uint64 {
 	r.s += 0x9E3779B97F4A7C15
 	z := r.s
